@@ -601,3 +601,6 @@ def r6(chk, repo):
         chk.ob("R05.6", func_qual(repo, c), f"{c.args[0].attr} is called "
                f"inside a save_registers bracket", w is not None, c,
                "the caller-saved registers in use survive the call")
+
+# added rules (appended to the explanation the evidence file carries)
+EXPLANATION += (" " + 'Added during the build (DESIGN.md 4.31, second table): (R05.2) the save_registers lists around every helper call, evaluated for every destination, cover r0-r5 except the result register; (R05.10) the program name handed to BPF_PROG_LOAD is shorter than the name field (prog_load and EBPF.load by abstract execution).')
